@@ -26,7 +26,7 @@ WORDS = ['alpha', 'beta', 'gamma', 'delta', 'eps', 'zeta', 'eta', 'theta', 'iota
          # just outside the autolink syntax (scheme of 1 or 33 characters): literal text
          '<a:b>', '<abcdefghijklmnopqrstuvwxyz0123456:x>']
 TRAIL = ['', '', '', '', ',', '.', ';', '!', '?', ':']
-CODE_CONTENT = ['x', 'a b', '*a*', '<b>', 'a`b', '`', '[x](y)', 'a\\b', '&amp;', ' x', 'x ', ' x ', '1 < 2', '``', 'a``b`c', '_', '  ',
+CODE_CONTENT = ['C:\\ /s', 'x\\ y', 'end\\', 'x', 'a b', '*a*', '<b>', 'a`b', '`', '[x](y)', 'a\\b', '&amp;', ' x', 'x ', ' x ', '1 < 2', '``', 'a``b`c', '_', '  ',
                 'f(x)', '"q"', "it's", 'a|b', '$x$', '#', '>', 'x  y']
 DESTS = ['/url', 'http://a.b/c?d=e&f=g', '#frag', 'a_b', '/p(q)r', 'x', '/a%20b', 'mailto:a@b.c', '/u*v*', 'https://x.y/z_w_v',
          '/ä', '/with"quote', "/with'apos"]
@@ -706,6 +706,12 @@ def plan_labels(c):
                          'title_nl': (not c.canonical and not c.reflow and t.chance(50)),
                          'cont_indent': t.weighted([(3, 0), (1, 1), (1, 3)])})
         c.labels.append({'label': label, 'defs': defs, 'used': False})
+    if not c.canonical and not c.reflow and t.chance(20):
+        # a label at the length limit of 999 characters
+        label = 'limit ' + 'x' * 993
+        c.labels.append({'label': label, 'used': False,
+                         'defs': [{'spelled': label, 'dest': '/limit', 'angle': False, 'title': '', 'tq': '"', 'order': None,
+                                   'dest_nl': False, 'title_nl': False, 'cont_indent': 0}]})
     if not c.canonical and not c.reflow and 'dest_escape' not in c.exclude and t.chance(60):
         # a label with backslash escapes / a line ending inside: matched as written (labels are not unescaped),
         # used in full references only, where the label is not displayed
